@@ -22,19 +22,10 @@ What is assumed about a history (`HistOkFrom`): a module file installed by *some
 does not collide in (mtime second, size) with the bytecode-cache entry of the module path - CPython
 validates cached bytecode by exactly that key, and no code in mako can repair a collision it did not
 cause.  Mako's own writes cannot collide any more: the entry is removed after every (re)write.
-OPEN (finding F-C15-3, see `rewrite_iff_due_partial` / `respelled_name_rewrite_counterexample`): the re-check
-"generated from another template file" compares file-name *strings*; with "another file" read as file
-identity the statement
-
-```
-theorem rewrite_iff_due … :   writes ≥ 1 ↔ missing ∨ older ∨ other magic number ∨ generated from another FILE
-```
-is false of the code: the same file under another spelling of its name (`./tmpl//x.html` for `tmpl/x.html`,
-same module path) is regenerated although nothing is due.  The two defects of the first round are repaired
-(`known_findings.json`, "fixed"); undoing a repair breaks `writeLoops_on` / `dropsBytecode_on` /
-`dropsBytecodeHook_on`.
-`concurrent_constructs_need_stable_source_counterexample` documents a limit of the protocol that lies outside the
-property's quantifier (see there); it is not a finding.
+OPEN: nothing - no recorded finding of C15 is left.  `known_findings.json` lists the three repaired ones under
+"fixed" (short write ignored; stale bytecode after a same-second rewrite; a re-spelled file name regenerated
+the module): undoing a repair breaks `writeLoops_on` / `dropsBytecode_on` / `dropsBytecodeHook_on` /
+`respelled_name_reused_regression`, and the oracle streams keep the witnesses.
 -/
 namespace MakoModel.C15
 open MakoModel.ModFile MakoModel.Generated.ModFile
@@ -55,17 +46,19 @@ un-normalised name regenerate on each construction, twice when the module is mis
 theorem records_filename_verbatim : recordsFilenameVerbatim = true := by decide
 
 /-- For every history and the world it reaches: a construct without faults writes the module iff it is
-missing, older than the source, carries another magic number **or records another template file name**; it
-writes at most once; when nothing is due the whole module directory is untouched and no file-system action
-is performed.
-Partial (F-C15-3): "another template file" is what the code tests - inequality of the recorded name and the
-name now given, as *strings*; histories may respell the name (`HOp.respell`), and then this is weaker than
-the property's "generated from another file" - see the counterexample below. -/
-theorem rewrite_iff_due_partial (w0 : World) (h : List HOp) (p : Plan) (hw0 : Inv w0) (hh : HistOkFrom w0 h)
+missing, older than the source, carries another magic number **or was generated from another template
+file**; it writes at most once; when nothing is due the whole module directory is untouched and no
+file-system action is performed.
+"Another file" is file identity *up to `os.path.normpath` of the names* (`normOf`): the recorded name and the
+name now given are two spellings with the same normalised path - `./tmpl//x.html` and `tmpl/x.html` - iff they
+count as the same file.  A symlinked name, or a relative and an absolute spelling of one file, are still
+different names for the code (and, given by name, map to different module paths anyway); histories may
+re-spell the name at any point (`HOp.respell`). -/
+theorem rewrite_iff_due (w0 : World) (h : List HOp) (p : Plan) (hw0 : Inv w0) (hh : HistOkFrom w0 h)
     (hp : p.noFault) :
     ((construct defaultWriter (runH w0 h) p).writes ≥ 1 ↔
       ((runH w0 h).fs .mod = none ∨ ∃ f, (runH w0 h).fs .mod = some f ∧
-        (f.mtime < (runH w0 h).srcMtime ∨ f.content.magic ≠ magicNumber ∨ f.content.file ≠ (runH w0 h).fileId))) ∧
+        (f.mtime < (runH w0 h).srcMtime ∨ f.content.magic ≠ magicNumber ∨ normOf f.content.file ≠ normOf (runH w0 h).fileId))) ∧
     (construct defaultWriter (runH w0 h) p).writes ≤ 1 ∧
     (¬ Due (runH w0 h) → (construct defaultWriter (runH w0 h) p).world.fs = (runH w0 h).fs ∧
       (construct defaultWriter (runH w0 h) p).acts = []) :=
@@ -74,7 +67,7 @@ theorem rewrite_iff_due_partial (w0 : World) (h : List HOp) (p : Plan) (hw0 : In
 /-- the hypotheses are satisfiable by a non-trivial history (written, source touched older / equal / newer,
 replaced by another generator version, deleted, a raising and a dying construct), and both sides occur -/
 example : (construct defaultWriter (runH World.init exHist) {}).writes = 1 ∧ Due (runH World.init exHist) :=
-  have h := rewrite_iff_due_partial World.init exHist {} init_inv_world exHist_okFrom ⟨rfl, rfl, rfl⟩
+  have h := rewrite_iff_due World.init exHist {} init_inv_world exHist_okFrom ⟨rfl, rfl, rfl⟩
   ⟨by decide, h.1.1 (by decide)⟩
 example : (construct defaultWriter (runH World.init (exHist ++ [.setClock 13, .construct {}])) {}).writes = 0 := by
   decide
@@ -83,15 +76,19 @@ example : (construct defaultWriter (runH World.init
     (exHist ++ [.setClock 13, .construct {}, .replaceMod ⟨4, magicNumber, true, 50, 1, 7⟩ 20])) {}).writes = 1 := by
   decide
 
-/-- **F-C15-3**: the module was written for this source version under the name `0`; the next Template is given
-another spelling (`1`) of the same file's name (same module path).  The module on disk is complete, not older
-than the source, of the current generator version and generated from the *current* source - nothing is due -
-and it is rewritten all the same. -/
-theorem respelled_name_rewrite_counterexample :
+/-- **Regression theorem** (repaired defect F-C15-3, /repo 9a78efb): the module was written for this source
+version under the name `0`; the next Template is given another spelling (`1`) of the same normalised path (same
+module path).  Nothing is due - and nothing is written, the module directory stays as it is.  With the raw
+string comparison the code had before (`fileCmpNormalised = false`) this construct rewrote the module. -/
+theorem respelled_name_reused_regression :
     let w := runH World.init [.modifySrc 5, .setClock 7, .construct {}, .respell 1]
-    (construct defaultWriter w {}).writes = 1 ∧
+    (construct defaultWriter w {}).writes = 0 ∧ (construct defaultWriter w {}).acts = [] ∧
     (w.fs .mod).map (fun f => (f.content.src, f.content.magic, f.content.complete, decide (f.mtime < w.srcMtime)))
       = some (w.srcVer, magicNumber, true, false) := by decide
+
+/-- … while a name with another normalised path (another file) is still a reason to regenerate -/
+example : (construct defaultWriter (runH World.init [.modifySrc 5, .setClock 7, .construct {}, .respell 2]) {}).writes = 1 := by
+  decide
 
 /-! ## the `module_writer` hook -/
 
@@ -146,7 +143,7 @@ theorem after_rewrite_current (w0 : World) (h : List HOp) (p : Plan) (hw0 : Inv 
     (hp : p.noFault) :
     ∃ c t, (construct defaultWriter (runH w0 h) p).res = .served c ∧
       (construct defaultWriter (runH w0 h) p).world.fs .mod = some ⟨c, t⟩ ∧ c.complete = true ∧
-      c.magic = magicNumber ∧ c.file = (runH w0 h).fileId ∧
+      c.magic = magicNumber ∧ normOf c.file = normOf (runH w0 h).fileId ∧
       (((construct defaultWriter (runH w0 h) p).writes ≥ 1 ∨
           ∃ f, (runH w0 h).fs .mod = some f ∧ f.content.src = (runH w0 h).srcVer) → c.src = (runH w0 h).srcVer) :=
   after_rewrite_current_at (runH w0 h) p (runH_inv h w0 hh hw0) hp
@@ -210,7 +207,7 @@ theorem concurrent_constructs_safe (fs0 : FS) (v0 sm0 clock0 : Nat) (fates1 fate
         (runC (CState.initial fs0 v0 sm0 clock0 fates1 fates2) sched).srcVer) ∧
     Good (runC (CState.initial fs0 v0 sm0 clock0 fates1 fates2) sched).fs ∧
     (∀ p c, ((runC (CState.initial fs0 v0 sm0 clock0 fates1 fates2) sched).procs p).phase = .done (some c) →
-      c.complete = true ∧ c.magic = magicNumber ∧ c.file = 0 ∧
+      c.complete = true ∧ c.magic = magicNumber ∧ normOf c.file = normOf 0 ∧
       (NewLike v0 (runC (CState.initial fs0 v0 sm0 clock0 fates1 fates2) sched).srcVer c ∨
         ∃ t, fs0 .mod = some ⟨c, t⟩)) ∧
     (∀ p, fates1 p = [] → fates2 p = [] →
